@@ -868,6 +868,8 @@ def parse_unit(path):
             cur.setdefault("loops", {})[sub[1]] = {"text": text, "iter": sub[2]}
         elif sub[0] == "proof":
             cur.setdefault("proofs", []).append((sub[1], text))
+        elif sub[0] == "impl_items":
+            cur["impl_items"] = text
         buf = []
         sub = None
 
@@ -882,6 +884,14 @@ def parse_unit(path):
             if d == "postlude":
                 flush_sub()
                 mode = "postlude"
+                continue
+            if d.startswith("include "):
+                inc = os.path.normpath(os.path.join(os.path.dirname(path), d[8:].strip()))
+                txt = open(inc, encoding="utf-8").read()
+                if mode == "postlude":
+                    unit["postlude"] += txt + "\n"
+                else:
+                    unit["prelude"] += txt + "\n"
                 continue
             if d.startswith("global_replace "):
                 m = re.match(r"global_replace\s+<<(.*?)>>\s+with\s+<<(.*?)>>", d)
@@ -924,6 +934,9 @@ def parse_unit(path):
                 elif d.startswith("proof at "):
                     flush_sub()
                     sub = ("proof", d[len("proof at "):].strip())
+                elif d == "impl_items":
+                    flush_sub()
+                    sub = ("impl_items",)
                 elif d == "external_body":
                     flush_sub()
                     cur["external_body"] = True
@@ -1025,6 +1038,7 @@ def extract_unit(unit_path, repo, out_rs, out_meta):
             "sha256": hashlib.sha256(orig_text.encode()).hexdigest(),
             "rules": log,
             "external_body": bool(item.get("external_body")),
+            "impl_items": item.get("impl_items", ""),
         })
     # group consecutive fns by impl header
     out_lines = []
@@ -1035,6 +1049,8 @@ def extract_unit(unit_path, repo, out_rs, out_meta):
     emit("// GENERATED by /verif/tools/extract.py from %s -- do not edit" % repo)
     emit("#![allow(unused_imports, dead_code, unused_variables, non_camel_case_types, unused_mut, unused_parens, unused_braces)]")
     emit("use vstd::prelude::*;")
+    emit("use std::ops::Deref;")
+    emit("use vstd::string::StringSliceAdditionalSpecFns;")
     emit("verus! {")
     emit(unit["prelude"])
     headers_global = unit["global_replace"]
@@ -1051,6 +1067,8 @@ def extract_unit(unit_path, repo, out_rs, out_meta):
                 htoks, _ = replace_seq(htoks, old, new, dummy, "R3")
             emit(text_of(htoks).strip() + " {")
             while i < len(emitted) and emitted[i]["impl_header"] == hdr:
+                if emitted[i].get("impl_items"):
+                    emit(emitted[i]["impl_items"])
                 first = len(out_lines) + 1
                 emit(emitted[i]["text"])
                 line_map.append((first, len(out_lines), emitted[i]["selector"]))
